@@ -15,13 +15,17 @@ LEVEL_TEXT = ("Set and partial-map refinement theorems proved in Lean for all sp
 LEVEL_NOTE = ("Lean kernel + standard axioms; model hand-written, tied by correspondence; Python ints modelled as Nat "
               "(Spans asserts start >= 0; DataSpans offsets are share offsets).")
 RULE = ("seeded histories of Spans add/remove/contains/len/&/+/-/+=/-= and DataSpans add/remove/get/pop/len/get_spans over "
-        "offsets 0..300 (longer/wider in thorough) against allmydata.util.spans; a case is one operation; distinct = "
-        "distinct (kind, state-before, op) triples; non-trivial = the state before the op is non-empty")
-TRUSTED = ["lean/Tahoe/Spans/Model.lean and DataModel.lean are hand transcriptions of util/spans.py (insert+sort modelled "
+        "offsets 0..300 (longer/wider in thorough) against allmydata.util.spans, plus histories over named values "
+        "(4 Spans and 2 DataSpans objects kept alive; results of &, -, +, Spans(other), Spans(list), Spans(s,l), get_spans(), "
+        "DataSpans(other) stored under their own name, degenerate operands included, then mutated in place; every named value "
+        "compared after every step); a case is one operation; distinct = distinct (kind, state-before, op) triples; "
+        "non-trivial = the state before the op is non-empty")
+TRUSTED = ["lean/Tahoe/Spans/Model.lean, DataModel.lean and RegModel.lean are hand transcriptions of util/spans.py (insert+sort modelled "
            "as ordered insert; index loops as structural recursion over the list suffix; DataSpans.add case A followed by "
            "the re-iteration at the same chunk is inlined)"]
 ASSUMPTIONS = ["offsets and lengths are non-negative ints (asserted by Spans.add/remove; DataSpans is only called with share offsets)",
-               "DataSpans.get/pop with length 0 is outside the statement (result compared with the model only)"]
+               "DataSpans.get/pop with length 0 is outside the statement (result compared with the model only)",
+               "`a += a` / `a -= a` (right operand is the object being mutated) are probed by the monitor only, not sent to the model"]
 
 from common import hx
 
@@ -349,6 +353,251 @@ def dline_of(ops):
     return "dspans " + " ".join(toks)
 
 
+# ----------------------------------------------------------------------------- named values (register file)
+# Several Spans (r0..r3) and DataSpans (d0..d1) objects stay alive; every value-returning operation stores its
+# result under a name, in-place operations act on one name, and ALL names are compared with the reference
+# (and with the model) after every step.  A set of integers / a partial map has value semantics: mutating one
+# named value must never change another.
+
+NR, ND = 4, 2
+VALUE_OPS = ("and", "sub", "or", "copy", "set", "one", "gs")
+
+
+def gen_reg_prelude(rng, maxoff, base):
+    """Degenerate operand shapes, each followed by an in-place mutation of the result and of an operand."""
+    a = gen_pairs(rng, maxoff, base) or [(base + 3, 4)]
+    lo = min(x for x, _ in a)
+    hi = max(x + l for x, l in a)
+    mut = lambda k: (rng.choice(["add", "rm"]), k, base + rng.randrange(maxoff), rng.randrange(1, 9))
+    kind = rng.randrange(8)
+    ops = [("set", 0, a)]
+    if kind == 0:      # empty right operand
+        ops += [("sub", 2, 0, 1), mut(2), mut(0), ("or", 3, 0, 1), mut(3), mut(0)]
+    elif kind == 1:    # right operand is a superset of the left one
+        ops += [("one", 1, lo, hi - lo + 5), ("and", 2, 0, 1), mut(2), mut(0), mut(1)]
+    elif kind == 2:    # identical operands (equal values, distinct objects)
+        ops += [("copy", 1, 0), ("and", 2, 0, 1), mut(2), ("sub", 3, 0, 1), mut(3), ("or", 3, 0, 1), mut(3), mut(1)]
+    elif kind == 3:    # self operand
+        ops += [("and", 1, 0, 0), mut(1), ("sub", 2, 0, 0), mut(2), ("or", 3, 0, 0), mut(3), mut(0)]
+    elif kind == 4:    # empty left operand
+        ops += [("and", 2, 1, 0), mut(2), ("sub", 3, 1, 0), mut(3), ("or", 2, 1, 0), mut(2), mut(0)]
+    elif kind == 5:    # disjoint right operand (nothing to take away, but not empty)
+        ops += [("one", 1, hi + 7, 3), ("sub", 2, 0, 1), mut(2), mut(0), ("and", 3, 0, 1), mut(3)]
+    elif kind == 6:    # copies and get_spans / DataSpans(other)
+        ops += [("copy", 1, 0), mut(1), mut(0), ("dadd", 0, lo, "0102030405"), ("gs", 2, 0), mut(2), ("dcopy", 1, 0),
+                ("dadd", 1, lo + 1, "ff"), ("drm", 0, lo, 2), ("gs", 3, 1), ("dcopy", 0, 0), ("dadd", 0, lo + 9, "aa")]
+    else:              # in-place operators next to value-returning ones
+        ops += [("set", 1, gen_pairs(rng, maxoff, base)), ("sub", 2, 0, 1), ("isub", 2, 1), ("iadd", 2, 0), mut(2),
+                ("or", 3, 2, 1), ("iadd", 3, 1), mut(3), mut(1)]
+    return ops
+
+
+def gen_reg_history(rng, n, maxoff, base=0):
+    ops = gen_reg_prelude(rng, maxoff, base) if rng.random() < 0.7 else []
+    while len(ops) < n:
+        r = rng.random()
+        a = base + rng.randrange(maxoff)
+        l = rng.choice([1, 1, 2, 3, 5, 8, 13, 40])
+        k, i, j = rng.randrange(NR), rng.randrange(NR), rng.randrange(NR)
+        if rng.random() < 0.8 and k in (i, j):      # mostly store the result under a name of its own
+            k = rng.choice([x for x in range(NR) if x not in (i, j)])
+        d, e = rng.randrange(ND), rng.randrange(ND)
+        if r < 0.16:
+            ops.append(("add", k, a, l))
+        elif r < 0.28:
+            ops.append(("rm", k, a, l))
+        elif r < 0.52:
+            op = rng.choice(["and", "sub", "or"])
+            ops.append((op, k, i, j))
+            if rng.random() < 0.6:                  # mutate the result or an operand right away
+                ops.append((rng.choice(["add", "rm"]), rng.choice([k, k, i, j]), base + rng.randrange(maxoff), l))
+        elif r < 0.58:
+            if i != j:      # `a += a` / `a -= a` iterate over the object being mutated: probed separately (self_operand_probe)
+                ops.append((rng.choice(["iadd", "isub"]), i, j))
+        elif r < 0.64:
+            ops.append(("copy", k, i))
+        elif r < 0.68:
+            ops.append(("set", k, gen_pairs(rng, maxoff, base)))
+        elif r < 0.70:
+            ops.append(("one", k, a, l))
+        elif r < 0.78:
+            ops.append(("dadd", d, a, bytes(rng.randrange(256) for _ in range(l)).hex()))
+        elif r < 0.82:
+            ops.append(("drm", d, a, l))
+        elif r < 0.85:
+            ops.append(("dpop", d, a, l))
+        elif r < 0.88:
+            ops.append(("dcopy", d, e))
+        elif r < 0.92:
+            ops.append(("gs", k, d))
+        elif r < 0.95:
+            ops.append(("c", i, a, l))
+        elif r < 0.97:
+            ops.append(("len", i))
+        elif r < 0.99:
+            ops.append(("dget", d, a, l))
+        else:
+            ops.append(("dlen", d))
+    return ops
+
+
+def run_regimpl(ctx, ops):
+    from allmydata.util.spans import Spans, DataSpans
+    regs = [Spans() for _ in range(NR)]
+    refs = [set() for _ in range(NR)]
+    dregs = [DataSpans() for _ in range(ND)]
+    drefs = [dict() for _ in range(ND)]
+    born = {("r", k): (-1, "init") for k in range(NR)}
+    born.update({("d", k): (-1, "init") for k in range(ND)})
+    case = {"kind": "reg", "ops": ops}
+    outs = []
+
+    def rng_set(a, l):
+        return set(range(a, a + l))
+
+    for step, op in enumerate(ops):
+        k = op[0]
+        res = None
+        before = "/".join([show(r._spans) for r in regs] + [show_chunks(d.spans) for d in dregs])
+        if k == "add":
+            regs[op[1]].add(op[2], op[3]); refs[op[1]] = refs[op[1]] | rng_set(op[2], op[3])
+        elif k == "rm":
+            regs[op[1]].remove(op[2], op[3]); refs[op[1]] = refs[op[1]] - rng_set(op[2], op[3])
+        elif k in ("and", "sub", "or"):
+            x, y = regs[op[2]], regs[op[3]]
+            v = (x & y) if k == "and" else (x - y) if k == "sub" else (x + y)
+            w = (refs[op[2]] & refs[op[3]]) if k == "and" else (refs[op[2]] - refs[op[3]]) if k == "sub" else (refs[op[2]] | refs[op[3]])
+            regs[op[1]] = v; refs[op[1]] = w; born[("r", op[1])] = (step, k)
+        elif k in ("iadd", "isub"):
+            x = regs[op[1]]
+            y = x
+            if k == "iadd":
+                y += regs[op[2]]; refs[op[1]] = refs[op[1]] | refs[op[2]]
+            else:
+                y -= regs[op[2]]; refs[op[1]] = refs[op[1]] - refs[op[2]]
+            if y is not x:
+                ctx.violation("in-place Spans operator returned a new object", case, "spans-inplace-identity")
+            regs[op[1]] = y
+        elif k == "copy":
+            regs[op[1]] = Spans(regs[op[2]]); refs[op[1]] = set(refs[op[2]]); born[("r", op[1])] = (step, k)
+        elif k == "set":
+            regs[op[1]] = Spans([tuple(p) for p in op[2]]); refs[op[1]] = set_of(op[2]); born[("r", op[1])] = (step, k)
+        elif k == "one":
+            regs[op[1]] = Spans(op[2], op[3]); refs[op[1]] = rng_set(op[2], op[3]); born[("r", op[1])] = (step, k)
+        elif k == "dadd":
+            data = bytes.fromhex(op[3])
+            dregs[op[1]].add(op[2], data)
+            drefs[op[1]] = dict(drefs[op[1]])
+            for n, b in enumerate(data):
+                drefs[op[1]][op[2] + n] = b
+        elif k == "drm":
+            dregs[op[1]].remove(op[2], op[3])
+            drefs[op[1]] = {x: b for x, b in drefs[op[1]].items() if not (op[2] <= x < op[2] + op[3])}
+        elif k in ("dpop", "dget"):
+            ref = drefs[op[1]]
+            want = bytes(ref[op[2] + n] for n in range(op[3])) if all((op[2] + n) in ref for n in range(op[3])) else None
+            got = dregs[op[1]].pop(op[2], op[3]) if k == "dpop" else dregs[op[1]].get(op[2], op[3])
+            if op[3] > 0 and got != want:
+                ctx.violation("DataSpans.%s result differs from the offset->byte map" % k[1:], case, "dspans-%s-result" % k[1:])
+            if k == "dpop" and want is not None:
+                drefs[op[1]] = {x: b for x, b in ref.items() if not (op[2] <= x < op[2] + op[3])}
+            res = show_opt(got)
+        elif k == "dcopy":
+            dregs[op[1]] = DataSpans(dregs[op[2]]); drefs[op[1]] = dict(drefs[op[2]]); born[("d", op[1])] = (step, k)
+        elif k == "gs":
+            regs[op[1]] = dregs[op[2]].get_spans(); refs[op[1]] = set(drefs[op[2]]); born[("r", op[1])] = (step, k)
+        elif k == "c":
+            got = (op[2], op[3]) in regs[op[1]]
+            if got != all(x in refs[op[1]] for x in range(op[2], op[2] + op[3])):
+                ctx.violation("Spans.__contains__ differs from the set of integers", case, "spans-contains")
+            res = "T" if got else "F"
+        elif k == "len":
+            n = regs[op[1]].len()
+            if n != len(refs[op[1]]):
+                ctx.violation("Spans.len differs from the set of integers", case, "spans-len")
+            res = str(n)
+        elif k == "dlen":
+            n = dregs[op[1]].len()
+            if n != len(drefs[op[1]]):
+                ctx.violation("DataSpans.len differs from the number of mapped offsets", case, "dspans-len")
+            dregs[op[1]].get_chunks().clear()      # the returned list is the caller's: changing it must not matter
+            res = str(n)
+        else:
+            raise ValueError("unknown reg op %r" % (op,))
+        # every named value against its reference
+        for y in range(NR):
+            if set(regs[y].each()) != refs[y]:
+                twins = [x for x in range(NR) if x != y and regs[x] is regs[y]]
+                if twins:
+                    younger = max([("r", y)] + [("r", x) for x in twins], key=lambda t: born[t][0])
+                    sig = "aliased-result:" + born[younger][1]
+                    what = ("r%d changed when r%d was mutated in place: the result of `%s` is the same object as an operand"
+                            % (y, twins[0], born[younger][1]))
+                else:
+                    sig = "reg-content:" + k
+                    what = "named Spans value r%d differs from the set-of-integers reference after `%s`" % (y, k)
+                ctx.violation(what, case, sig, {"step": step, "op": list(op), "register": "r%d" % y})
+        for y in range(ND):
+            got_map, nbytes = chunks_dict(dregs[y].get_chunks())
+            if got_map != drefs[y] or nbytes != len(drefs[y]):
+                twins = [x for x in range(ND) if x != y and dregs[x] is dregs[y]]
+                sig = ("aliased-result:" + born[max([("d", y)] + [("d", x) for x in twins], key=lambda t: born[t][0])][1]
+                       if twins else "reg-dcontent:" + k)
+                ctx.violation("named DataSpans value d%d differs from the offset->byte reference after `%s`" % (y, k), case, sig,
+                              {"step": step, "op": list(op), "register": "d%d" % y})
+        dump = "/".join([show(r._spans) for r in regs] + [show_chunks(d.spans) for d in dregs])
+        outs.append((res + "|" if res is not None else "") + dump)
+        ctx.case(("R", before, repr(op)) if before.strip("-/") else None)
+        ctx.count("reg-op:" + k)
+        if k in ("and", "sub", "or"):
+            x, y = op[2], op[3]
+            shape = ("self-operand" if x == y else "empty-right" if not refs[y] and refs[x] else "empty-left" if not refs[x] else
+                     "equal-operands" if refs[x] == refs[y] else "right-superset" if refs[x] <= refs[y] else
+                     "disjoint" if not (refs[x] & refs[y]) else "general") if op[1] not in (x, y) else "rebinding-operand"
+            ctx.count("reg-binop-shape:" + shape)
+    return ";".join(outs)
+
+
+def regline_of(ops):
+    toks = []
+    for op in ops:
+        if op[0] == "set":
+            toks.append("set:%d:%s" % (op[1], ",".join("%d+%d" % tuple(x) for x in op[2]) or "-"))
+        elif op[0] == "dadd":
+            toks.append("dadd:%d:%d:%s" % (op[1], op[2], op[3] or "-"))
+        else:
+            toks.append(":".join(str(x) for x in op))
+    return "reg " + " ".join(toks)
+
+
+REG_CORPUS = [
+    # r2 = r0 - (empty); r2.add(...) must not change r0  (seeded change C37-b: __sub__ returning self)
+    [("set", 0, [(0, 4), (6, 4)]), ("sub", 2, 0, 1), ("add", 2, 20, 2), ("c", 0, 20, 1), ("len", 0)],
+    # r2 = r0 & superset: bounds - other is empty, so the outer __sub__ has an empty right operand
+    [("set", 0, [(3, 4), (10, 2)]), ("one", 1, 0, 50), ("and", 2, 0, 1), ("rm", 2, 3, 1), ("len", 0), ("add", 0, 30, 1), ("len", 2)],
+    [("set", 0, [(3, 4)]), ("and", 1, 0, 0), ("sub", 2, 0, 0), ("or", 3, 0, 0), ("add", 1, 9, 1), ("add", 3, 11, 1), ("add", 2, 13, 1), ("rm", 0, 3, 1)],
+    [("dadd", 0, 5, "aabbcc"), ("gs", 0, 0), ("dcopy", 1, 0), ("add", 0, 20, 1), ("dadd", 1, 6, "00"), ("drm", 0, 5, 1), ("gs", 1, 1), ("dlen", 0), ("dget", 1, 5, 3)],
+]
+
+
+def self_operand_probe(ctx):
+    """`a -= a` and `a += a` (the right operand is the object being mutated): monitor only, not sent to the model."""
+    from allmydata.util.spans import Spans
+    for _ in range(20):
+        pairs = gen_pairs(ctx.rng, 60) + [(100, 1), (102, 1), (104, 1)]
+        want = set_of(pairs)
+        a = Spans(pairs); a -= a
+        ctx.case(("P", "isub-self", repr(pairs)))
+        if set(a.each()) != set():
+            ctx.violation("`a -= a` leaves %d of %d members (iterates over the list it is removing from)" % (a.len(), len(want)),
+                          {"kind": "probe", "op": "isub-self", "pairs": pairs}, "spans-isub-self-operand")
+        b = Spans(pairs); b += b
+        ctx.case(("P", "iadd-self", repr(pairs)))
+        if set(b.each()) != want:
+            ctx.violation("`a += a` changes the set", {"kind": "probe", "op": "iadd-self", "pairs": pairs}, "spans-iadd-self-operand")
+    ctx.count("probe:self-operand-inplace", 40)
+
+
 # fixed corpus: boundary shapes of every branch (run first)
 SPANS_CORPUS = [
     [("a", 5, 5), ("a", 10, 2), ("a", 3, 2), ("a", 20, 1), ("a", 0, 30), ("l",), ("c", 0, 30), ("c", 0, 31)],
@@ -403,28 +652,40 @@ def guarded(ctx, fn, kind, ops):
 
 
 def run(ctx):
-    shists, dhists = [], []
+    shists, dhists, rhists = [], [], []
     if ctx.replay:
         c = ctx.replay["case"]
-        (dhists if c.get("kind") == "dspans" else shists).append(untuple(c["ops"]))
+        if c.get("kind") == "probe":
+            self_operand_probe(ctx)
+            return
+        {"dspans": dhists, "reg": rhists}.get(c.get("kind"), shists).append(untuple(c["ops"]))
     else:
         shists = [list(h) for h in SPANS_CORPUS]
         dhists = [list(h) for h in DSPANS_CORPUS]
+        rhists = [list(h) for h in REG_CORPUS]
         lens = [5, 20, 60, 200] if ctx.tier != "thorough" else [5, 20, 60, 200, 600]
         offs = [20, 60, 300] if ctx.tier != "thorough" else [12, 20, 60, 300, 1000]
         for i in range(ctx.budget(400, 3000)):
             shists.append(gen_history(ctx.rng, ctx.rng.choice(lens), ctx.rng.choice(offs), pick_base(ctx)))
         for i in range(ctx.budget(400, 3000)):
             dhists.append(gen_dhistory(ctx.rng, ctx.rng.choice(lens), ctx.rng.choice(offs), pick_base(ctx)))
+        for i in range(ctx.budget(300, 3000)):
+            rhists.append(gen_reg_history(ctx.rng, ctx.rng.choice([8, 15, 40, 100]), ctx.rng.choice([20, 60, 300]), pick_base(ctx)))
+        self_operand_probe(ctx)
     simpl = [guarded(ctx, run_impl, "spans", h) for h in shists]
     dimpl = [guarded(ctx, run_dimpl, "dspans", h) for h in dhists]
-    model = ctx.model([line_of(h) for h in shists] + [dline_of(h) for h in dhists])
+    rimpl = [guarded(ctx, run_regimpl, "reg", h) for h in rhists]
+    model = ctx.model([line_of(h) for h in shists] + [dline_of(h) for h in dhists] + [regline_of(h) for h in rhists])
     if model is not None:
         ctx.compare("Spans history (internal _spans list after each op, query results)",
                     [{"kind": "spans", "ops": h} for h in shists], simpl, model[:len(shists)])
         ctx.compare("DataSpans history (internal spans list after each op, get/pop/len/get_spans results)",
-                    [{"kind": "dspans", "ops": h} for h in dhists], dimpl, model[len(shists):])
+                    [{"kind": "dspans", "ops": h} for h in dhists], dimpl, model[len(shists):len(shists) + len(dhists)])
+        ctx.compare("named values r0..r3/d0..d1 (every register after each op, query results)",
+                    [{"kind": "reg", "ops": h} for h in rhists], rimpl, model[len(shists) + len(dhists):])
     if shists:
         ctx.sample({"spans-ops": shists[0][:8], "impl": simpl[0][:200]})
     if dhists:
         ctx.sample({"dspans-ops": dhists[0][:8], "impl": dimpl[0][:200]})
+    if rhists:
+        ctx.sample({"reg-ops": rhists[0][:8], "impl": rimpl[0][:300]})
